@@ -51,21 +51,33 @@ class Adapter:
         armi_ready()
         self.CT, self.BT = CT, BT
 
-    def build(self, A):
-        from armi.reactor.converters.axialExpansionChanger import AxialExpansionChanger
-
+    def build(self, A, fresh=False):
+        """A = the design as the specification prints it with a case (the CURRENT design of the case's last state; types0 / expl
+        are what the assembly is built with).  fresh: a new changer object for every call instead of one re-used changer."""
+        chg_cls, link_cls = gen.changer_class(A.get("rule", "default"))
         a = gen.build_assembly(A, self.CT, self.BT)
-        w = {"A": A, "a": a, "chg": AxialExpansionChanger(detailedAxialExpansion=bool(A["det"])), "err": "", "broken": False, "init": {}}
-        for b in a:
-            for c in b:
-                w["init"][id(c)] = (dict(c.getNumberDensities()), c.getArea(), c.getMass())
+        types0 = list(A.get("types0", A["types"])) + ([A["top"]] if A.get("top") else [""])
+        names = [list(self.BT[t]["comps"]) if t else [] for t in types0]
+        w = {"A": A, "a": a, "chg_cls": chg_cls, "link_cls": link_cls, "fresh": fresh, "chg": self.new_changer(A, chg_cls),
+             "err": "", "broken": False, "init": {}, "names": names, "solid": [[self.CT[n]["solid"] for n in ns] for ns in names]}
+        for ib, b in enumerate(a):
+            self.baseline(w, ib, b)
         return w
+
+    @staticmethod
+    def new_changer(A, chg_cls):
+        return chg_cls(detailedAxialExpansion=bool(A["det"]))
+
+    @staticmethod
+    def baseline(w, ib, b, key="ref"):
+        """as-built number densities, area and mass of every component of block ib (the reference for the relative observations)"""
+        for c in b:
+            w["init"][(key, ib, c.name)] = (dict(c.getNumberDensities()), c.getArea(), c.getMass())
 
     def modelled(self, w):
         """components of the model, block by block incl. the top block (the coolant / intercoolant every block carries and
         the coolant of a dummy top are outside it)"""
-        a, A = w["a"], w["A"]
-        return [[b.getComponentByName(n) for n in A["names"][ib]] for ib, b in enumerate(a)]
+        return [[b.getComponentByName(n) for n in w["names"][ib]] for ib, b in enumerate(w["a"])]
 
     def solids(self, w):
         from armi.reactor.converters.axialExpansionChanger.expansionData import iterSolidComponents
@@ -73,9 +85,26 @@ class Adapter:
         return [list(iterSolidComponents(b)) for b in w["a"]]
 
     def apply(self, w, act):
-        a, chg = w["a"], w["chg"]
+        a = w["a"]
         n = act["n"]
         w["err"] = ""
+        if n == "ReplaceBlock":
+            # Block.replaceBlockWithBlock with a freshly built block of the given type (as-built height) that carries the designated target
+            ib = act["b"] - 1
+            repl = gen.make_block(act["t"], self.BT[act["t"]], self.CT, w["A"]["hs"][ib], w["A"].get("hot", 0))
+            if act["e"]:
+                repl.setAxialExpTargetComp(repl.getComponentByName(act["e"]))
+            self.baseline(w, ib, repl)
+            a[ib].replaceBlockWithBlock(repl)
+            w["names"][ib] = list(self.BT[act["t"]]["comps"])
+            w["solid"][ib] = [self.CT[x]["solid"] for x in w["names"][ib]]
+            return ""
+        if n == "EditMult":
+            a[act["b"] - 1].getComponentByName(w["names"][act["b"] - 1][act["i"] - 1]).setDimension("mult", float(act["m"]))
+            return ""
+        if w["fresh"]:
+            w["chg"] = self.new_changer(w["A"], w["chg_cls"])
+        chg = w["chg"]
         try:
             if n in ("Prescribed", "PrescribedBad"):
                 comps, fr = [], []
@@ -84,14 +113,14 @@ class Adapter:
                     for ib, blk in enumerate(mod):
                         for ic, c in enumerate(blk):
                             g = act["g"][ib][ic]
-                            if not w["A"]["solid"][ib][ic]:
+                            if not w["solid"][ib][ic]:
                                 continue
                             if act["kind"] == "sparse" and g == [1, 1]:
                                 continue  # components that are not listed keep factor 1.0 (ExpansionData.getExpansionFactor default)
                             comps.append(c)
                             fr.append(q(g))
                 else:
-                    comps = [c for ib, blk in enumerate(mod) for ic, c in enumerate(blk) if w["A"]["solid"][ib][ic]]
+                    comps = [c for ib, blk in enumerate(mod) for ic, c in enumerate(blk) if w["solid"][ib][ic]]
                     fr = [1.0] * len(comps)
                     if act["kind"] == "zero":
                         fr[0] = 0.0
@@ -121,18 +150,16 @@ class Adapter:
 
     def project(self, w):
         from armi.materials.material import Fluid
-        from armi.reactor.converters.axialExpansionChanger.assemblyAxialLinkage import AssemblyAxialLinkage
-
         a = w["a"]
         mod = self.modelled(w)
         placed = any(hasattr(c, "zbottom") for blk in mod for c in blk)
         try:
-            links = AssemblyAxialLinkage(a).linkedComponents
+            links = w["link_cls"](a).linkedComponents
         except RuntimeError:
             links = None
 
-        def ratio(c):
-            nd0, area0, m0 = w["init"][id(c)]
+        def ratio(c, ib):
+            nd0, area0, m0 = w["init"][("ref", ib, c.name)]
             nd = c.getNumberDensities()
             rs = [nd.get(k, 0.0) / v for k, v in nd0.items() if v > 0.0]
             if not rs or set(nd) != set(nd0):
@@ -143,11 +170,11 @@ class Adapter:
             return hi
 
         comp = []
-        for blk in mod:
+        for ib, blk in enumerate(mod):
             row = []
             for c in blk:
-                nd0, area0, m0 = w["init"][id(c)]
-                r = ratio(c)
+                nd0, area0, m0 = w["init"][("ref", ib, c.name)]
+                r = ratio(c, ib)
                 solid = not isinstance(c.material, Fluid)
                 row.append({
                     "name": c.name,
@@ -163,7 +190,7 @@ class Adapter:
                     "upper": "" if links is None or c not in links or links[c].upper is None else links[c].upper.name,
                 })
             comp.append(row)
-        fl = [ratio(c) for b in a for c in b if isinstance(c.material, Fluid)]
+        fl = [ratio(c, ib) for ib, b in enumerate(a) for c in b if isinstance(c.material, Fluid)]
         bad = [x for x in fl if not isinstance(x, float)]
         return {
             "zb": [float(b.p.zbottom) for b in a],
@@ -187,12 +214,12 @@ class Adapter:
 class CoreAdapter(Adapter):
     """the reference assembly (the Adapter's world) inside a real Core with follower assemblies; Manage = manageCoreMesh"""
 
-    def build_core(self, A, F):
+    def build_core(self, A, F, fresh=False):
         from armi.reactor import geometry, grids, reactors
         from armi.reactor.converters.axialExpansionChanger.axialExpansionChanger import makeAssemsAbleToSnapToUniformMesh
         from armi.reactor.flags import Flags
 
-        w = self.build(A)
+        w = self.build(A, fresh)
         r = reactors.Reactor("c12", None)
         core = reactors.Core("core")
         r.add(core)
@@ -217,11 +244,58 @@ class CoreAdapter(Adapter):
             raise tlc.MachineryError("the reference assembly of the built core is not the modelled one")
         makeAssemsAbleToSnapToUniformMesh(core.getAssemblies(), [], core.refAssem)
         w.update(r=r, fols=fols, F=F)
-        for a in fols:
-            for b in a:
-                for c in b:
-                    w["init"][id(c)] = (dict(c.getNumberDensities()), c.getArea(), c.getMass())
+        for k, a in enumerate(fols):
+            for ib, b in enumerate(a):
+                self.baseline(w, ib, b, key="fol%d" % k)
         return w
+
+    def save_load(self, w):
+        """Database.writeToDB ; Database.load of the whole reactor; the world continues with the loaded objects"""
+        from armi import settings
+        from armi.bookkeeping.db.database import Database
+        from armi.reactor import blueprints
+
+        r = w["r"]
+        r.p.cycle, r.p.timeNode = 0, w.get("ndb", 0)
+        w["ndb"] = w.get("ndb", 0) + 1
+        if "dbdir" not in w:
+            w["dbdir"] = common.workdir("c12db")
+        fn = os.path.join(w["dbdir"], "c12-%d-%d.h5" % (id(w), w["ndb"]))
+        cwd = os.getcwd()
+        os.chdir(w["dbdir"])  # armi moves the finished file into the working directory
+        import sys
+
+        sys.stdout.flush()
+        sys.stderr.flush()
+        saved = os.dup(1), os.dup(2)
+        null = os.open(os.devnull, os.O_WRONLY)
+        os.dup2(null, 1)  # the loader prints banners and `mv` complains about moving the file onto itself
+        os.dup2(null, 2)
+        try:
+            db = Database(fn, "w")
+            db.open()
+            try:
+                db.writeToDB(r)
+                r2 = db.load(0, r.p.timeNode, cs=settings.Settings(), bp=blueprints.Blueprints(), allowMissing=True)
+            finally:
+                db.close()
+        finally:
+            sys.stdout.flush()
+            sys.stderr.flush()
+            os.dup2(saved[0], 1)
+            os.dup2(saved[1], 2)
+            for fd in (null,) + saved:
+                os.close(fd)
+            os.chdir(cwd)
+            if os.path.exists(fn):
+                os.remove(fn)
+        by = {tuple(a.spatialLocator.getCompleteIndices()[:2]): a for a in r2.core}
+        places = [(0, 0), (1, 0), (0, 1), (-1, 1), (-1, 0), (0, -1), (1, -1)]
+        w["r"], w["a"] = r2, by[places[0]]
+        w["fols"] = [by[places[k + 1]] for k in range(len(w["fols"]))]
+        if r2.core.refAssem is not w["a"]:
+            raise tlc.MachineryError("the reference assembly of the loaded core is not the modelled one")
+        w["expanded"] = True  # the loaded assembly grids carry the elevations
 
     def apply(self, w, act):
         if act["n"] == "Manage":
@@ -230,17 +304,21 @@ class CoreAdapter(Adapter):
             if not w["A"]["det"]:
                 w["expanded"] = True  # calculateZCoords has put the elevations into the reference assembly's grid
             return ""
+        if act["n"] == "SaveLoad":
+            w["err"] = ""
+            self.save_load(w)
+            return ""
         return Adapter.apply(self, w, act)
 
     def project_core(self, w):
         out = []
-        for a, f in zip(w["fols"], w["F"]):
+        for k, (a, f) in enumerate(zip(w["fols"], w["F"])):
             comp = []
             for ib, b in enumerate(a):
                 row = []
                 for n in f["names"][ib]:
                     c = b.getComponentByName(n)
-                    nd0, area0, m0 = w["init"][id(c)]
+                    nd0, area0, m0 = w["init"][("fol%d" % k, ib, n)]
                     nd = c.getNumberDensities()
                     rs = [nd.get(k, 0.0) / v for k, v in nd0.items() if v > 0.0]
                     r = max(rs) if max(rs) - min(rs) <= 1e-12 * max(rs) else "nuclides scaled differently"
@@ -254,7 +332,7 @@ class CoreAdapter(Adapter):
 
 
 def run_core_case(ad, case):
-    w = ad.build_core(case["A"], case["F"])
+    w = ad.build_core(case["A"], case["F"], fresh_policy(case))
     path = case["path"]
     try:
         for act in path:
@@ -290,9 +368,17 @@ def compare(exp, got):
     return rp.diff(e, g, rtol=RTOL, atol=ATOL)
 
 
+def fresh_policy(case):
+    """one changer object re-used for all calls of the behaviour, or a fresh one per call -- the specification does not
+    distinguish them (setAssembly starts from scratch), so this is only a choice of how to drive the real code"""
+    import zlib
+
+    return zlib.crc32(json.dumps(case["path"], sort_keys=True).encode()) % 3 == 0
+
+
 def run_case(ad, case, check_all=False):
     """build the design, apply the calls, compare the final (or every) observation.  -> divergence dict or None"""
-    w = ad.build(case["A"])
+    w = ad.build(case["A"], fresh_policy(case))
     path = case["path"]
     try:
         for act in path:
@@ -380,11 +466,17 @@ def run(rep, tier, seed):
         refuted = {cl: "" for cl in CLAUSES}
 
     # 3. spec -> code: behaviours of the emission instance and the static cases on real assemblies
-    for fam, cfg, cap in (("replay", "AxialExpansion_emit%s.cfg" % sfx, 2000 if _SELFTEST else 40000 if thorough else 2800),
+    for fam, cfg, cap in (("replay", "AxialExpansion_emit%s.cfg" % sfx, 2000 if _SELFTEST else 36000 if thorough else 2200),
+                          ("hist", "AxialExpansion_hist%s.cfg" % sfx, 500 if _SELFTEST else 5000 if thorough else 450),
                           ("cases", "AxialExpansion_cases%s.cfg" % sfx, None)):
         eres, cat, cases = emit(cfg)
         rep.add_tlc("behaviours:" + cfg, eres)
         census = action_census(cases)
+        if eres.violation:
+            rep.violation("tlc:" + eres.violation["name"], "TLC: %s violated in the specification (%s)" % (eres.violation["name"], cfg),
+                          {"direction": "tlc", "cfg": cfg, "trace": eres.violation["trace"][:20000]})
+        if fam == "hist" and not (census.get("ReplaceBlock/ok") and census.get("EditMult/ok")):
+            raise tlc.MachineryError("vacuous: no ReplaceBlock / EditMult in %s (%s)" % (cfg, census))
         if fam == "replay":
             missing = [n for n in NEEDED if not census.get(n)]
             if missing:
@@ -448,9 +540,14 @@ def run(rep, tier, seed):
         raise tlc.MachineryError("vacuous: no Manage after a call in " + ccfg)
     cad = CoreAdapter(ccat["CT"], ccat["BT"])
     ccap = 120 if _SELFTEST else 3000 if thorough else 220
-    managed = [c for c in ccases if c["path"] and c["path"][-1]["n"] == "Manage"]
-    others = [c for c in ccases if not (c["path"] and c["path"][-1]["n"] == "Manage")]
-    ctodo = ccases if len(ccases) <= ccap else rng.sample(managed, min(len(managed), ccap * 2 // 3)) + rng.sample(others, ccap // 3)
+    has = lambda c, n: any(a["n"] == n for a in c["path"])  # noqa: E731
+    managed = [c for c in ccases if has(c, "Manage")]
+    dbs = [c for c in ccases if has(c, "SaveLoad") and not has(c, "Manage")]
+    others = [c for c in ccases if not has(c, "Manage") and not has(c, "SaveLoad")]
+    if not dbs:
+        raise tlc.MachineryError("vacuous: no database round trip in " + ccfg)
+    ctodo = ccases if len(ccases) <= ccap else (rng.sample(managed, min(len(managed), ccap // 2)) + rng.sample(dbs, min(len(dbs), ccap // 4))
+                                                + rng.sample(others, min(len(others), ccap // 4)))
     n = 0
     divs = {}
     for c in ctodo:
@@ -463,7 +560,7 @@ def run(rep, tier, seed):
     rep.add_replay("core", n, sum(1 for c in ctodo if c["path"]),
                    "core level: a real Core with the reference assembly and 3-4 follower assemblies (same column, coarser fuel column, "
                    "control assembly, duct block below the fuel); every emitted behaviour (calls on the reference assembly interleaved with "
-                   "manageCoreMesh) is executed and all assemblies are compared (heights, elevations, densities, masses, grid bounds, core mesh)")
+                   "manageCoreMesh and with database round trips (Database.writeToDB ; load)) is executed and all assemblies are compared (heights, elevations, densities, masses, grid bounds, core mesh)")
     for k, d in divs.items():
         rep.violation(k, "real core diverges from CoreMesh after %s: %s" % (json.dumps(d["action"])[:300], d["first_difference"]),
                       dict(d, direction="core"))
@@ -538,13 +635,13 @@ def measure_clause(ad, case, clause):
     for ib, b in enumerate(a[:-1]):
         tn = b.p.axialExpTargetComponent
         for ic, c in enumerate(mod[ib]):
-            if not case["A"]["solid"][ib][ic]:
+            if not w["solid"][ib][ic]:
                 continue
             rel = after[ib][ic] / before[ib][ic]
             if clause == "TargetMassConserved" and c.name != tn:
                 continue
             if clause == "UniformBlockMassConserved":
-                gs = {json.dumps(g[ib][k]) for k in range(len(mod[ib])) if case["A"]["solid"][ib][k]}
+                gs = {json.dumps(g[ib][k]) for k in range(len(mod[ib])) if w["solid"][ib][k]}
                 if len(gs) != 1:
                     continue
             if abs(rel - 1.0) > 1e-6 and not err:
@@ -561,15 +658,16 @@ def measure_clause(ad, case, clause):
 # code -> spec
 # ------------------------------------------------------------------------------------------------------------
 TRACE_DESIGNS = [
-    {"types": ["shield", "fuel", "plenum"], "hs": [4, 8, 4], "hd": 32, "top": "", "det": True, "hot": 0},
-    {"types": ["fuel", "fuel", "plenumd"], "hs": [8, 4, 2], "hd": 16, "top": "", "det": False, "hot": 0},
-    {"types": ["shieldd", "fueld", "fueld", "plenumd"], "hs": [2, 4, 4, 2], "hd": 24, "top": "", "det": True, "hot": 0},
-    {"types": ["fuelb", "bigfuel", "plenum"], "hs": [4, 4, 4], "hd": 12, "top": "", "det": False, "hot": 0},
-    {"types": ["shield", "fuel", "fuel"], "hs": [4, 8, 4], "hd": 16, "top": "plenum", "det": False, "hot": 0},  # no dummy: the plenum is chopped
-    {"types": ["fuel", "fuel"], "hs": [4, 4], "hd": 8, "top": "fuel", "det": False, "hot": 0},
-    {"types": ["fuel"], "hs": [4], "hd": 8, "top": "plenum", "det": True, "hot": 0},  # no dummy + detailed: refused
-    {"types": ["fuel", "fuel", "plenums"], "hs": [4, 4, 4], "hd": 16, "top": "", "det": False, "hot": 2},  # built hot, marginal sleeve link
-    {"types": ["fuel", "plenumr"], "hs": [4, 4], "hd": 8, "top": "", "det": True, "hot": 2},
+    {"types": ["shield", "fuel", "plenum"], "hs": [4, 8, 4], "hd": 32, "top": "", "det": True, "hot": 0, "rule": "default"},
+    {"types": ["fuel", "fuel", "plenumd"], "hs": [8, 4, 2], "hd": 16, "top": "", "det": False, "hot": 0, "rule": "default"},
+    {"types": ["shieldd", "fueld", "fueld", "plenumd"], "hs": [2, 4, 4, 2], "hd": 24, "top": "", "det": True, "hot": 0, "rule": "default"},
+    {"types": ["fuelb", "bigfuel", "plenum"], "hs": [4, 4, 4], "hd": 12, "top": "", "det": False, "hot": 0, "rule": "default"},
+    {"types": ["shield", "fuel", "fuel"], "hs": [4, 8, 4], "hd": 16, "top": "plenum", "det": False, "hot": 0, "rule": "default"},  # no dummy: the plenum is chopped
+    {"types": ["fuel", "fuel"], "hs": [4, 4], "hd": 8, "top": "fuel", "det": False, "hot": 0, "rule": "default"},
+    {"types": ["fuel"], "hs": [4], "hd": 8, "top": "plenum", "det": True, "hot": 0, "rule": "default"},  # no dummy + detailed: refused
+    {"types": ["fuel", "fuel", "plenums"], "hs": [4, 4, 4], "hd": 16, "top": "", "det": False, "hot": 2, "rule": "default"},  # built hot, marginal sleeve link
+    {"types": ["fuel", "plenumr"], "hs": [4, 4], "hd": 8, "top": "", "det": True, "hot": 2, "rule": "default"},
+    {"types": ["shield", "fuel", "plenum"], "hs": [4, 4, 4], "hd": 16, "top": "", "det": False, "hot": 0, "rule": "freeclad"},  # linkage through the subclass hook
 ]
 
 
@@ -673,6 +771,22 @@ def _src_mutant(owner, name, old, new, also=()):
     return cm
 
 
+def _slot_patched(obj, name, value):
+    """like harness.selftest.patched, for objects with __slots__ (parameter definitions)"""
+    import contextlib
+
+    @contextlib.contextmanager
+    def cm():
+        old = getattr(obj, name)
+        setattr(obj, name, value)
+        try:
+            yield
+        finally:
+            setattr(obj, name, old)
+
+    return cm()
+
+
 def selftest():
     """In-process mutants of the anchored code; each must be detected by replay, the static cases or trace validation."""
     global _SELFTEST
@@ -683,6 +797,8 @@ def selftest():
     from armi.reactor.converters.axialExpansionChanger import assemblyAxialLinkage as L
     from armi.reactor.converters.axialExpansionChanger import axialExpansionChanger as X
     from armi.reactor.converters.axialExpansionChanger import expansionData as E
+
+    from armi.reactor import assemblies, blocks
 
     C, D, K = X.AxialExpansionChanger, E.ExpansionData, L.AssemblyAxialLinkage
     _SELFTEST = True
@@ -731,6 +847,18 @@ def selftest():
         ("manageCoreMesh skips the core mesh update", M(C, "manageCoreMesh", "r.core.updateAxialMesh()", "pass")),
         ("seed2-5: reference temperature 0.0 C treated as missing",
          M(D, "_perComponentThermalExpansionFactors", "elif c in self.componentReferenceTemperature:", "elif self.componentReferenceTemperature.get(c):")),
+        ("seed3-1: links looked up with the module function, not the overridable hook",
+         M(K, "_findComponentLinkedTo", "functools.partial(self.areAxiallyLinked, c)", "functools.partial(areAxiallyLinked, c)")),
+        ("seed3-2: the designated target name survives replaceBlockWithBlock",
+         M(blocks.Block, "replaceBlockWithBlock", "tempBlock = copy.deepcopy(bReplacement)",
+           "paramsToSkip.add('axialExpTargetComponent'); tempBlock = copy.deepcopy(bReplacement)")),
+        ("seed3-3: setAssembly keeps the linkage of the previous call on the same assembly",
+         M(C, "setAssembly", "self.linked = AssemblyAxialLinkage(a)",
+           "self.linked = self.linked if (self.linked is not None and self.linked.a is a) else AssemblyAxialLinkage(a)")),
+        ("seed3-4: fuel of fuel blocks only conserved in FUEL-flagged assemblies",
+         M(assemblies.Assembly, "_shouldMassBeConserved", "if b.hasFlags(Flags.FUEL):", "if self.hasFlags(Flags.FUEL) and b.hasFlags(Flags.FUEL):")),
+        ("seed3-5: the designated target name is not written to the database",
+         lambda: _slot_patched(blocks.Block.paramCollectionType.pDefs["axialExpTargetComponent"], "saveToDB", False)),
         ("negative block height accepted", M(X, "_checkBlockHeight", "if b.getHeight() <= 0.0:", "if b.getHeight() < -1.0e9:")),
         ("zero block height accepted again (<= 0.0 back to < 0.0)", M(X, "_checkBlockHeight", "if b.getHeight() <= 0.0:", "if b.getHeight() < 0.0:")),
         ("link direction reversed (upper stored as lower)", M(K, "_getLinkedComponents", "AxialLink(lowerC, upperC)", "AxialLink(upperC, lowerC)")),
